@@ -201,6 +201,16 @@ class MyFrozen(frozenset):
 
 
 @dataclass
+class Holder:
+    """fields whose defaults are containers / constructor calls themselves"""
+
+    t: Any = (0, 0)
+    lst: Any = field(default_factory=lambda: [0])
+    pt: Any = field(default_factory=lambda: Point(x=0, y=0))
+    n: Any = 1
+
+
+@dataclass
 class HFirst:
     """a field that is no constructor argument in front of the others"""
 
@@ -324,7 +334,7 @@ def mutate_in_place(v, depth=0):
 
 
 __all__ = [
-    "IdentityEq", "LossyCopy", "SelfCopy", "RaisingEq", "MyList", "Locky", "MySet", "MyFrozen", "HFirst", "Decimal", "nan", "mutate_in_place", "APriv", "PAlias", "DInit", "make_dinit",
+    "IdentityEq", "LossyCopy", "SelfCopy", "RaisingEq", "MyList", "Locky", "MySet", "MyFrozen", "HFirst", "Holder", "Decimal", "nan", "mutate_in_place", "APriv", "PAlias", "DInit", "make_dinit",
     "Color", "Level", "Perm", "Outer", "Point", "FPoint", "Box", "APoint", "AFrozen",
     "PModel", "NT", "TNT", "Opaque", "Vec", "defaultdict", "inf", "Hidden", "AHidden", "PHidden", "PExtra", "IVar", "SubPoint", "Point3", "IPerm", "OrderedDict", "Counter",
 ]
